@@ -101,7 +101,7 @@ class Snap:
         self.arrs = [np.array(m.array) if m is not None else None for m in mp._mp]
         self.tensors = tuple((a.shape, str(a.dtype), a.tobytes()) if a is not None else None for a in self.arrs)
         self.coeff_val = getattr(mp, "coeff", None)
-        self.coeff = repr(complex(mp.coeff)) if hasattr(mp, "coeff") else None
+        self.coeff = complex(mp.coeff) if hasattr(mp, "coeff") else None     # compared with == (so -0.0 == 0.0)
         self.qn_raw = [np.array(q) for q in mp.qn] if mp.qn is not None else None
         self.qn = tuple(q.tobytes() for q in self.qn_raw) if self.qn_raw is not None else None
         self.qntot = np.array(mp.qntot) if mp.qntot is not None else None
@@ -134,7 +134,8 @@ class Snap:
             d.append("model")
         if ("tensors" in d or "coeff" in d):
             a, b = self.repr, other.repr
-            if (a is None) != (b is None) or (a is not None and (a.shape != b.shape or a.tobytes() != b.tobytes())):
+            # numerical equality element by element (differs from bit equality only in the sign of zeros)
+            if (a is None) != (b is None) or (a is not None and (a.shape != b.shape or not np.array_equal(a, b))):
                 d.append("repr")
         return d
 
@@ -149,13 +150,14 @@ class Snap:
         return d
 
 
-def repr_close(a, b):
+def repr_close(a, b, rel=None):
+    rel = REL if rel is None else rel
     if a is None or b is None:
         return a is None and b is None
     if a.shape != b.shape:
         return False
     s = max(float(np.max(np.abs(a), initial=0.0)), float(np.max(np.abs(b), initial=0.0)))
-    return float(np.max(np.abs(a - b), initial=0.0)) <= REL * s + 1e-300
+    return float(np.max(np.abs(a - b), initial=0.0)) <= rel * s + 1e-300
 
 
 def observe(mp):
@@ -172,6 +174,20 @@ def observe(mp):
     except Exception as e:   # deterministic as well
         out.append("exc:" + type(e).__name__)
     return tuple(out)
+
+
+def gauge_stable(mp):
+    try:
+        r0 = chain_repr(mp)
+        for left in (True, False):
+            c = mp.copy()
+            if c.site_num >= 2:
+                c.ensure_left_canonical() if left else c.ensure_right_canonical()
+            if not repr_close(r0, chain_repr(c), rel=1e-7):
+                return False
+        return True
+    except Exception:
+        return False
 
 
 # ------------------------------------------------------------------------------------ reporting
@@ -719,7 +735,7 @@ def run_chain_call(run, env, thunk):
             continue
         if rep_close and rep_same_bits:
             # tensors/coeff rewritten with identical represented bits (e.g. coeff folded exactly)
-            run.count(f"rewritten-same-bits:{name}")
+            run.count(f"rewritten-with-equal-values:{name}")
             continue
         if rep_close:
             report(run, f"{name}:{role}:input-rewritten(repr-equal-up-to-rounding)", replay)
@@ -740,7 +756,13 @@ def run_chain_call(run, env, thunk):
             except Exception:
                 ok = False
             if ok and max(result.bond_dims) <= 24:
-                env.add_obj(pre, result)
+                # only label-consistent objects may join the pool: a re-gauging sweep must preserve them.  (Sums of
+                # states with different centres carry wrong labels - D1, C03/C06's business - and the VMF/CMF
+                # evolutions legitimately canonicalise their argument.)
+                if not gauge_stable(result):
+                    run.count(f"pool-rejected:labels-inconsistent:{name}")
+                else:
+                    env.add_obj(pre, result)
 
 
 def _is_d8(probe, obj_after):
@@ -872,6 +894,14 @@ def tree_imports():
     return TTNS, TTNO, BasisTree, TreeNodeBasis, optimize_ttns
 
 
+def tree_dense(t):
+    """TTNS.todense() cannot name the size-one leg of a dummy node (KeyError, C11's business): ask for the
+    physical basis sets only"""
+    from renormalizer.model.basis import BasisDummy
+    order = [b for b in t.basis.basis_list if not isinstance(b, BasisDummy)]
+    return np.asarray(t.todense(order)) if hasattr(t, "coeff") else np.asarray(t.todense(order))
+
+
 class TSnap:
     def __init__(self, t):
         nodes = t.node_list
@@ -882,7 +912,7 @@ class TSnap:
         self.struct = tuple((idx.get(id(n.parent), -1) if n.parent is not None else None, tuple(idx.get(id(c), -1) for c in n.children))
                             for n in nodes)
         self.coeff_val = getattr(t, "coeff", None)
-        self.coeff = repr(complex(t.coeff)) if hasattr(t, "coeff") else None
+        self.coeff = complex(t.coeff) if hasattr(t, "coeff") else None
         self.cfg = cfg_items(t)
         self.obj = t
         self._repr = None
@@ -891,7 +921,7 @@ class TSnap:
         """must be called while the object still has the snapshotted content"""
         if self._repr is None:
             c = self.coeff_val if self.coeff_val is not None else 1
-            self._repr = np.asarray(np.asarray(self.obj.todense()) * c, dtype=complex)
+            self._repr = np.asarray(tree_dense(self.obj) * c, dtype=complex)
         return self._repr
 
     def diff(self, other):
@@ -918,7 +948,7 @@ class TSnap:
 def tree_observe(t):
     c = getattr(t, "coeff", 1)
     out = [tuple(np.array(n.tensor).tobytes() for n in t.node_list), repr(complex(c)),
-           np.asarray(np.asarray(t.todense()) * c, dtype=complex).tobytes()]
+           np.asarray(tree_dense(t) * c, dtype=complex).tobytes()]
     return tuple(out)
 
 
@@ -1076,7 +1106,7 @@ def tree_ops(env):
             nm = "TTNS.bond-entropy"
         else:
             def call():
-                T.todense()
+                tree_dense(T)
                 O.todense()
                 _ = T.norm, T.ttns_norm, T.bond_dims, T.qntot
             nm = "TTNS.todense/norm"
@@ -1225,7 +1255,7 @@ def run_tree_call(run, env, thunk):
             if shared:
                 run.count(f"shared-buffer:{name}")
             try:
-                ok = bool(np.all(np.isfinite(np.asarray(result.todense())))) and max(result.bond_dims) <= 16
+                ok = bool(np.all(np.isfinite(tree_dense(result)))) and max(result.bond_dims) <= 16
             except Exception:
                 ok = False
             if ok:
@@ -1324,8 +1354,10 @@ def search(run, rng, quick):
 
     # alternate chain and tree environments; chains get ~60 % of the time
     t_chain = t_tree = 0.0
+    ienv = 0
     while time.time() - t0 < budget:
-        do_tree = t_tree * 0.6 < t_chain * 0.4
+        do_tree = (ienv % 5) in (1, 3)       # fixed pattern: the sequence of cases depends on rng only
+        ienv += 1
         ts = time.time()
         if not do_tree:
             try:
